@@ -2,6 +2,7 @@
 import NngModel.Driver.Pipeline
 import NngModel.Model.Sub
 import NngModel.Model.Pub
+import NngModel.Model.Xsub
 import NngModel.Spec.PubSub
 namespace Nng.Driver.PubSub
 open Nng Nng.Proto Nng.Driver Nng.Driver.Pipeline
@@ -10,7 +11,9 @@ def components : List (String × Component) := [
   ("sub-judge", judgeComponent ({} : Nng.PubSubSpec.SubJ) Nng.PubSubSpec.subStep (·.err)),
   ("pub-judge", judgeComponent ({} : Nng.PubSubSpec.PubJ) Nng.PubSubSpec.pubStep (·.err)),
   ("sub-model", protoComponent ({} : Nng.Sub.State) Nng.Sub.step),
-  ("pub-model", protoComponent ({} : Nng.Pub.State) Nng.Pub.step)
+  ("pub-model", protoComponent ({} : Nng.Pub.State) Nng.Pub.step),
+  ("xsub-judge", judgeComponent ({} : Nng.PubSubSpec.XsubJ) Nng.PubSubSpec.xsubStep (·.err)),
+  ("xsub-model", protoComponent ({} : Nng.Xsub.State) Nng.Xsub.step)
 ]
 
 end Nng.Driver.PubSub
